@@ -654,7 +654,9 @@ Definition glue_nts (k : string) (a o : list value) : option verdict :=
                         let ae := if negb (snd d =? 0) then 9 else if negb idok then 1
                                   else if negb (snd w =? 0) then 2 else 0 in
                         let after := if snd d =? 0 then (if idok then fst w else np_cookies (fst d)) else [] in
-                        let stored := if ae =? 0 then filter (fun c => (length c <=? 896)%nat) (map ext_value after) else [] in
+                        (* Fetcher.StoreCookie (fetcher empty before): cookies longer than MaxCookieLen are
+                           skipped, and so is everything beyond a pool of MaxStoredCookies = 8 *)
+                        let stored := if ae =? 0 then firstn 8 (filter (fun c => (length c <=? 896)%nat) (map ext_value after)) else [] in
                         [VZ 0; VB e; VZ (snd d); nts_pkt_val (fst d); VZ ae; cookie_vals after; VL (map VB stored)]
                       else [VZ 0; VB e; VZ (snd d); nts_pkt_val (fst d); VZ aerr; VL afterv; VL storedv]
                   | _ => panic_row
@@ -683,7 +685,8 @@ Definition glue_nts (k : string) (a o : list value) : option verdict :=
                     match ext_vals_of afterv, getBs storedv with
                     | Some after, Some stored =>
                         C14_resp_cookies_ok sent after &&
-                        (if (l <=? 896)%nat then (length stored =? length sent)%nat && forallb2_eq stored sent else true)
+                        (* the packet round trip is about `after`; the pool keeps at most eight of them (C11) *)
+                        (if (l <=? 896)%nat then (length stored =? Nat.min 8 (length sent))%nat && forallb2_eq stored (firstn 8 sent) else true)
                     | _, _ => false end
                   else true
               | [] => true
